@@ -423,14 +423,9 @@ Proof. intros c a. unfold cp_cleanup. rewrite map_map. reflexivity. Qed.
 Lemma cp_cleanup_gone : forall c a e, In e (cp_cleanup c a) -> ~ In c (snd e).
 Proof.
   intros c a e I. unfold cp_cleanup in I. apply in_map_iff in I. destruct I as [e0 [Q I]]. subst e. cbn.
-  intros K. apply filter_In in K. destruct K as [_ K]. rewrite N.eqb_refl in K. discriminate.
-Qed.
-
-Lemma cp_cleanup_other : forall c c' a g, c' <> c -> cp_stc c' a g -> cp_stc c' (cp_cleanup c a) g.
-Proof.
-  intros c c' a g NE [e [I [E S]]]. exists (fst e, filter (fun x => negb (x =? c)) (snd e)). split.
-  - unfold cp_cleanup. apply in_map_iff. exists e. split; [reflexivity|exact I].
-  - cbn. split; [exact E|]. apply filter_In. split; [exact S|]. apply negb_true_iff. apply N.eqb_neq. exact NE.
+  assert (G : ~ In c (filter (fun x => negb (x =? c)) (snd e0))).
+  { intros K. apply filter_In in K. destruct K as [_ K]. rewrite N.eqb_refl in K. discriminate. }
+  destruct (snd e0) as [|x [|y l]]; [exact G|intros []|exact G].
 Qed.
 
 Lemma cp_filter_stamped : forall c a g, In g (map fst (filter (cp_stamped c) a)) <-> cp_stc c a g.
